@@ -76,6 +76,8 @@ class C02(Check):
         for sp, ok in S.ser_family(n_max=nmax):
             if ok:
                 jobs.append(line_job(sp, mons, e2=1))
+        for sp, ok in S.ser_family(n_max=1, budgets=(0,)):          # part budget 0: nothing may be supplied
+            jobs.append(line_job(sp, mons, e2=1))
         return jobs + topo_jobs(mons, tier)
 
 
@@ -147,6 +149,9 @@ class C03(Check):
                                                    S.REWIRE(K + 1, horizon=4), S.BLOCK(K + 1, horizon=4)]
         # capacity changes / unblocking / budget adjustments made BETWEEN two consecutive runs must wake parts up too
         specs += [S.with_splits(x) for x in (S.RES(K), S.BLOCK(K), S.BUDGET(K))]
+        # sinks with stretched / per-part cycle times; devices created while running with a blocked device as upstream
+        specs += [S.SINKOFF(K), S.LATE(K, horizon=4, name='c03', ops=[['create', 3, 4], ['create', 10, 11], ['create', 12, 13, 14],
+                                                                     ['block', 'M1', True]])]
         jobs = _line_jobs(specs, ['wakeup'], tier)
         nmax = 1 if tier == 'quick' else 2
         for sp, ok in S.ser_family(n_max=nmax):
@@ -228,7 +233,8 @@ class C08(Check):
         specs = [S.FAN(K), S.FAN3(2, horizon=8), S.GRPFAN(K), S.GRPPAR(K, horizon=hg), S.SCHED_BLOCK(K), S.RES(K),
                  S.BATCHGATE(K), S.BATCH_DIRECT(K), S.GATE(K), S.GATE_NONE(K), S.GRPBATCH(K), S.GRP_BLOCKED(K),
                  S.FANFAIL(2), S.GRPIN(K), S.REGRADE(K), S.FANGATE(2), S.REENT(K), S.REENT(K, src_cycle=1), S.GRP2(K, horizon=hg),
-                 S.NEST_MID(K, horizon=hg), S.NEST_OUT(K, horizon=hg), S.BLOCK(K), S.BATCH(K), S.REWIRE(K), S.GATEGRP(K)]
+                 S.NEST_MID(K, horizon=hg), S.NEST_OUT(K, horizon=hg), S.BLOCK(K), S.BATCH(K), S.REWIRE(K), S.GATEGRP(K),
+                 S.GRPPASS(K), S.NEST_PASS(K)]
         return _line_jobs(specs, ['route'], tier) + topo_jobs(['route'], tier)
 
 
@@ -247,7 +253,8 @@ class C11(Check):
         K = 1 if tier == 'quick' else 2
         specs = [S.RES(K), S.RES(K, r=2, q=0), S.RES(K + 1, horizon=4), S.RES_SER(K), S.RES_SER(K + 1, horizon=4),
                  S.RES2(K, horizon=5 if K == 1 else 4), S.RES3L(K),
-                 S.GRP2(K, horizon=4, resources=True), S.GRPPAR(K, horizon=4, resources=True), S.RES_MAINT(K + 1)]
+                 S.GRP2(K, horizon=4, resources=True), S.GRPPAR(K, horizon=4, resources=True), S.RES_MAINT(K + 1),
+                 S.RES_WINDOW(K + 1)]
         return _line_jobs(specs, ['resources'], tier)
 
 
@@ -269,6 +276,10 @@ class C13(Check):
                  S.MAINT_SCRIPT(K, probes=3), S.MAINT2_SCRIPT(K - 1), S.VALUE0(K - 1), S.BLOCKED_OUT_SCRIPT(K - 1)]
         # the cycle monitor rides along: a part whose processing time is stretched or cut by an outage shows up there
         jobs = _line_jobs(specs, ['shutdown', 'wakeup', 'cycle'], tier)
+        # a machine created while the line is running: its uptime / utilisation count from its creation
+        late = S.LATE(K, horizon=4, name='c13', ops=[['create', 3, 4], ['fail', 'M2', 0], ['shutdown', 'M2'], ['restore', 'M2']])
+        jobs += _line_jobs([late, S.with_splits(S.LATE(K - 1, horizon=3, name='c13s', ops=late['ops']))],
+                           ['shutdown', 'wakeup', 'cycle', 'lifecycle'], tier)
         if tier != 'quick':
             jobs += topo_jobs(['shutdown'], tier, kinds=('processor',))
         return jobs
@@ -293,6 +304,8 @@ class C15(Check):
         # the same log obligations across consecutive simulate() calls, with operations issued between the runs
         specs += [S.with_splits(x) for x in (S.RES(K), S.MAINT(K, n=1), S.BUDGET(K), S.BATCH(K), S.FAN(K))]
         specs += [S.VALUE0(K), S.MAINT_SCRIPT(K)]
+        # the user discards warm-up data (in the run and between runs); a user callback that raises ends the run
+        specs += [S.WARMUP(K + 1), S.with_splits(S.WARMUP(K)), S.ABORT(K)]
         jobs = _line_jobs(specs, ['data'], tier, e2q=6, e2t=20, trace=True) + topo_jobs(['data'], tier)
         # the schedule-record clause: timetables with repeated states, wrap-around, zero durations
         sch = [S.SCHED([(1, 'a'), (0.5, 'a'), (1, 'b')], True, [('o1', 'default')], K=K),
@@ -313,7 +326,7 @@ class C16(Check):
         K = 1 if tier == 'quick' else 2
         specs = [S.VALUE(K), S.VALUE(K + 1, horizon=4), S.VALUE_BATCH(K), S.MAINT(K), S.MAINT(K + 1, n=1),
                  S.VALUE_NEST(K), S.VALUE_NEG(K), S.VALUE_NEG(K + 1, horizon=4), S.VALUE0(K), S.VALUE0(K + 1, horizon=4),
-                 S.VALUE_FRAC(K), S.VALUE_FRAC(K + 1, horizon=3)]
+                 S.VALUE_FRAC(K), S.VALUE_FRAC(K + 1, horizon=3), S.VALUE_HOLD(K + 1)]
         return _line_jobs(specs, ['value'], tier) + topo_jobs(['value'], tier)
 
 
@@ -387,6 +400,8 @@ class C18(Check):
         # a scheduler created while the line is running / between two runs follows its timetable from its creation on
         late = S.LATE(1, creates=[[6]], horizon=4, name='sched')
         jobs += _line_jobs([late, S.with_splits(late)], ['schedule', 'lifecycle'], tier)
+        # ... and so does one created by another asset's start-up action (during the one-time initialisation pass)
+        jobs += _line_jobs([S.INITCREATE(K - 1, creates=[6], name='sched')], ['schedule', 'lifecycle'], tier)
         return jobs
 
 
@@ -417,6 +432,7 @@ class C19(Check):
         specs.append(S.SENS(K, interval=1, cap=2, n=1, placeholder='processor', two_cms=True))
         specs.append(S.SENS(K, interval=0.5, cap=None, n=0, ocap=1, two_cms=True, cms_twice=False))
         specs.append(S.SENS(K, interval=1, cap=2, n=0, second=0.5, same_name=True))
+        specs.append(S.SENS(K, interval=1, cap=2, n=1, post_dq=-0.125))
         # sensors and a CMS created while the line is running / between two runs: same schedule from their creation on
         late = S.LATE(1, creates=[[7], [8], [9]], horizon=4, name='sens')
         specs += [late, S.with_splits(late)]
@@ -493,6 +509,9 @@ class C04(Check):
                     jobs.append(line_job(sp, ['recurrence'], e2=1, max_depth=2500))
                 else:
                     self.excluded += 1
+        # a source whose part budget is 0 supplies nothing (n<=1)
+        for sp, ok in S.ser_family(n_max=1, budgets=(0,)):
+            jobs.append(line_job(sp, ['recurrence'], e2=1, max_depth=1500))
         # "every horizon": the same lines with the horizon reached through two consecutive simulate() calls, split at
         # every quiescent point (every split point is replayed through the real calls)
         n = 0
@@ -550,7 +569,9 @@ class C14(Check):
         th = tier != 'quick'
         K = 1 if not th else 2
         specs = [S.with_splits(x) for x in (S.FAN(K), S.MAINT(K), S.RES(K), S.GATE(K), S.BUDGET(K), S.BATCH(K),
-                                            S.MAINT(K + 1, n=1, horizon=4), S.SCHED_BLOCK(K), S.SENS(K, horizon=4))]
+                                            S.MAINT(K + 1, n=1, horizon=4), S.SCHED_BLOCK(K), S.SENS(K, horizon=4),
+                                            # user events without an owning asset (scripted) pending across the split
+                                            S.RES_SHUT(K, horizon=7), S.BLOCK_SCRIPT(K))]
         if th:
             specs += [S.with_splits(S.FAN(1), 2), S.with_splits(S.RES(1, horizon=4), 2)]
         jobs = _line_jobs(specs, ['splitinv', 'census', 'shutdown', 'cycle', 'schedule', 'sensors'], tier, e2q=20, e2t=60)
@@ -561,7 +582,7 @@ class C14(Check):
         jobs += _line_jobs([S.with_splits(S.LATE(1, horizon=3, creates=[[0, 1, 2], [6], [7], [10, 11]], name='c14'))],
                            ['splitinv', 'census', 'schedule', 'sensors', 'lifecycle'], tier)
         seeds = list(range(8 if not th else 24))
-        for model in ('fan', 'merge', 'maint', 'res', 'group2'):
+        for model in ('fan', 'merge', 'maint', 'res', 'group2', 'faults'):
             jobs.append(repro_job(f'SEED[{model}]', 'seed', model, seeds=seeds, offsets=[0, 1, 7], horizon=8))
             jobs.append(repro_job(f'SMT[{model}]', 'smt', model, ns=[1, 2, 3, 4], max_processes=[0, 1, 2, 3, None], horizon=6))
         jobs.append(repro_job('SMT12[merge]', 'smt', 'merge', ns=[12], max_processes=[0, 2], horizon=4))
